@@ -345,6 +345,8 @@ def field_table(value: bytes) -> typing.Tuple[int, common.FieldTable]:
         offset = 4
         data = {}
         field_table_end = offset + length
+        # A field may not extend beyond the declared length of its table
+        value = value[0:field_table_end]
         while offset < field_table_end:
             key_length = common.Struct.byte.unpack_from(value, offset)[0]
             offset += 1
